@@ -12,6 +12,7 @@ import (
 	"regexp"
 	"runtime"
 	"runtime/debug"
+	"runtime/pprof"
 	"sort"
 	"strings"
 	"sync"
@@ -106,6 +107,12 @@ func cmdWorker(args []string) {
 	only := fs.String("only", "", "report only violations of this property id")
 	fs.Parse(args)
 	p := mustProp(*prop)
+	if pf := os.Getenv("VERIF_PROFILE"); pf != "" && *wid == 0 {
+		if f, err := os.Create(pf); err == nil {
+			pprof.StartCPUProfile(f)
+			defer pprof.StopCPUProfile()
+		}
+	}
 	rep := &WorkerReport{Probes: map[string]int{}, ViolCount: map[string]int{}, Violations: map[string]*FoundViol{}}
 	var keys, hbKeys []uint64
 	minimised := 0
